@@ -12,7 +12,7 @@ import os
 import shutil
 
 from .. import tlc
-from ..absgrammar import alt, call, grammar, join, opt, plus, rule, seq, star, subexps, tok, to_ebnf
+from ..absgrammar import alt, call, eof, grammar, join, opt, plus, rule, seq, star, subexps, tok, to_ebnf
 from ..common import Check, pmap
 
 
@@ -20,7 +20,8 @@ def options(names):
     prefixes = [None, opt(tok('x')), star(tok('x')), plus(tok('x')), call('n'),      # n = ['x'] : a rule that can match empty
                 # positive joins / gathers: able to match empty exactly when their ELEMENT is (the separator plays no part)
                 join(tok(','), opt(tok('x')), True, True), join(tok(','), tok('x'), True, True), join(opt(tok(',')), tok('x'), True, False),
-                join(tok(','), opt(tok('x')), True, False), plus(opt(tok('x')))]
+                join(tok(','), opt(tok('x')), True, False), plus(opt(tok('x'))),
+                eof()]                                  # $ consumes nothing: what follows it is still at the rule's own start position
     targets = [tok('y')] + [call(n) for n in names]
     out = []
     for p in prefixes:
@@ -177,8 +178,49 @@ def guard_family(ck, tier):
     ck.notes['guard_family_cases'] = n
 
 
+def expansion_part(ck):
+    """Constructs the documentation defines by expansion (`>rule`, `name < base`): the left-call relation is that of the EXPANDED
+    grammar (PegGrammar evaluates the expansion; the real analysis gets the source text)."""
+    x, y, z, q = tok('x'), tok('y'), tok('z'), tok('q')
+    items = [
+        # a reaches itself through the included body of b
+        ("start = a $ ;\nb = a 'y' | 'z' ;\na = >b 'x' ;\n",
+         grammar(rule('start', seq(call('a'), eof())), rule('b', alt(seq(call('a'), y), z)), rule('a', seq(alt(seq(call('a'), y), z), x)))),
+        ("start = a $ ;\nb = 'z' | 'y' ;\na = >b 'x' ;\n",
+         grammar(rule('start', seq(call('a'), eof())), rule('b', alt(z, y)), rule('a', seq(alt(z, y), x)))),
+        # d = (d 'x' | 'q') 'y' through its base rule
+        ("start = d $ ;\nbase = d 'x' | 'q' ;\nd < base = 'y' ;\n",
+         grammar(rule('start', seq(call('d'), eof())), rule('base', alt(seq(call('d'), x), q)), rule('d', seq(alt(seq(call('d'), x), q), y)))),
+        ("start = d $ ;\nbase = 'x' | 'q' ;\nd < base = 'y' ;\n",
+         grammar(rule('start', seq(call('d'), eof())), rule('base', alt(x, q)), rule('d', seq(alt(x, q), y)))),
+    ]
+    d = tlc.scratch_dir('leftrecx')
+    try:
+        p = os.path.join(d, 'g.json')
+        json.dump([g for _src, g in items], open(p, 'w'))
+        r = tlc.run_tlc('LeftRec', env={'VERIF_CASES': p}, timeout=600)
+    finally:
+        shutil.rmtree(d, ignore_errors=True)
+    ck.add_tlc(r, 'LeftRec (expansions)')
+    battery = ['', 'z x', 'z y x', 'z x y x', 'q y', 'q x y', 'q y x y', 'x y']
+    res = pmap(run_lr_case, [{'ebnfs': ['@@nameguard :: False\n' + src for src, _g in items], 'battery': battery}], procs=1)[0]
+    for k, ((src, _g), o) in enumerate(zip(items, res), 1):
+        lr = set(r.res[str(k)]['lr'] if isinstance(r.res[str(k)]['lr'], list) else [])
+        ck.count(evaluations=1 + len(battery), traces=1 + len(battery), nontrivial=1 if lr else 0)
+        want_off = 'GrammarError' if lr else 'compiled'
+        if o.get('off') != want_off:
+            ck.violation({'kind': 'parse', 'inputs': {'grammar': src}, 'expected': want_off, 'observed': o.get('off'),
+                          'why': 'compile with left recursion off (the left-call relation of the expanded grammar: ' + str(sorted(lr)) + ')',
+                          'spec': 'LeftRec / PegGrammar!OnLeftCycle over the documented expansion'}, key='xoff' + src)
+        for text, out in (o.get('battery') or {}).items():
+            if out not in ('ok', 'fail'):
+                ck.violation({'kind': 'parse', 'inputs': {'grammar': src, 'text': text}, 'expected': 'a result or a parse failure', 'observed': out,
+                              'why': f'parsing {text!r}: {out}', 'spec': 'LeftRec (expansions)'}, key='xbat' + src + out)
+
+
 def run(tier):
     ck = Check('C16', tier)
+    expansion_part(ck)
     gs = universe(tier, ck.seed)
     d = tlc.scratch_dir('leftrec')
     try:
